@@ -236,7 +236,25 @@ def real_reservoir(cfg: dict):
                 res.simulate(t)
     finally:
         w.__exit__(None, None, None)
+    # what the simulation produced, kept aside: every later figure of this object is judged against it, whatever earlier
+    # plotting or recovery calls did to the object
+    res._bbv_pristine = np.array(res.pseudopressure, dtype=float, copy=True)
     return res
+
+
+def pristine_recovery(res) -> np.ndarray:
+    """recovery_factor() of the simulation as it was produced (evaluated on a copy of the object holding the pristine field,
+    so that the object under test keeps whatever its earlier calls left in it)."""
+    import copy  # noqa: PLC0415
+
+    ref = copy.copy(res)
+    ref.pseudopressure = np.array(getattr(res, "_bbv_pristine", res.pseudopressure), dtype=float, copy=True)
+    ref.__dict__.pop("recovery", None)
+    w = quiet()
+    try:
+        return np.asarray(ref.recovery_factor(), dtype=float).copy()
+    finally:
+        w.__exit__(None, None, None)
 
 
 def expected_rows(pp: np.ndarray, rescale: bool) -> np.ndarray:
@@ -260,7 +278,7 @@ def _intervals(idx: np.ndarray, cap: int = 32) -> list[list[int]]:
 
 
 def project_pseudo(res, every: int, rescale: bool, own_axes: bool = False) -> dict:
-    pp = np.asarray(res.pseudopressure, dtype=float)
+    pp = np.asarray(getattr(res, "_bbv_pristine", res.pseudopressure), dtype=float)
     nt, nx = pp.shape
     arts = call_pseudo(res, every, rescale, own_axes)
     rows = expected_rows(pp, rescale)
@@ -291,7 +309,7 @@ def project_pseudo(res, every: int, rescale: bool, own_axes: bool = False) -> di
 
 def project_curve(which: str, res, ticks: bool, grad_cache: dict) -> dict:
     t = np.asarray(res.time, dtype=float)
-    rf = np.asarray(res.recovery_factor(), dtype=float).copy()
+    rf = pristine_recovery(res)
     arts, xscale, _ = call_curve(which, res, ticks)
     x_same = len(arts) >= 1 and arts[0][0].shape == t.shape and bool(np.array_equal(arts[0][0], t))
     if which == "rf":
